@@ -15,7 +15,8 @@ CONSTANTS
   Boot <- BootABC
   CrashSet <- OnlyC
   StopSet <- OnlyB
-  Sync = FALSE
+  Sync = TRUE
+  TrackAge = FALSE
 INVARIANTS TypeOK Converged LearnsLive ForgetsDead PeerForgotten PeerLearnt SelfListed PeriodRestored NoDuplicateAddr ChannelSane
 PROPERTIES CallbackIffChange NoResurrection
 ACTION_CONSTRAINT Dump
